@@ -65,8 +65,13 @@ type c09case struct {
 	withIDs bool
 	verIdx  int // 0: 1.3 (or 3.7 when badVer); otherwise index into c09Versions
 	cfgIdx  int // index into c09Configs (0 = executor left on its defaults)
+	unrIdx  int // operation code of the unrouted items: index into c09UnroutedCodes (0 = Revoke, a standard operation without route)
 	ctxMode int // state of the context HandleRequest is called with: 0 live, 1 already cancelled, 2 deadline already expired, 3+i cancelled by the handler of item i
 }
+
+// operation codes without a route: a standard operation, and codes outside the standard range whose low bits are those of the
+// routed operation (Activate, 0x12)
+var c09UnroutedCodes = []kmip.Operation{kmip.OperationRevoke, 0x52, 0x112, 0x10012, 0x80000012, 0x54}
 
 var c09CtxNames = []string{"live", "already cancelled", "deadline already expired", "cancelled during item 0", "cancelled during item 1"}
 
@@ -104,6 +109,9 @@ func (k c09case) String() string {
 	if k.ctxMode > 0 {
 		ext += " context=" + c09CtxNames[k.ctxMode]
 	}
+	if k.unrIdx > 0 {
+		ext += fmt.Sprintf(" unroutedOperation=0x%X", uint32(c09UnroutedCodes[k.unrIdx]))
+	}
 	return fmt.Sprintf("items=[%s] option=%d unsupportedVersion=%v countDelta=%+d ids=%v%s", strings.Join(it, ","), k.option, k.badVer, k.countD, k.withIDs, ext)
 }
 
@@ -114,7 +122,7 @@ func runC09(c *vlib.Check) {
 	}
 	c.Rule = fmt.Sprintf("explicit-state enumeration: every batch of length 0..%d x continuation option {unset, Continue, Stop, Undo} x per-item outcome {success, typed error, plain error, panic, "+
 		"unrouted operation, critical extension, non-critical extension, built-in Discover Versions without / with a version filter} x {supported, unsupported} version x batch count {match, +1, -1} x {with, without} item IDs, each run on the real "+
-		"BatchExecutor.HandleRequest and compared field by field (and by handler call log) with a reference executor; extension x kind part: every item kind x {non-critical, critical} message extension in batches of length <= 2; version x configuration part: request versions {0.0, 1.0, 1.2, 1.4, 3.7, 1.5, 0.4} x executors {default, SetSupportedProtocolVersions with the full, a singleton, a gapped and a duplicated list} x batches of length <= 2 (rejected iff the version is not in the configured set); context part: batches of length <= 2 handled with a context that is already cancelled / past its deadline / cancelled by the handler of item 0 or 1 (same reference: the state of the caller's context is not among the causes of rejection); history part: every ordered pair of such requests of length <= %d through one executor (the outcome of a request must not depend on the requests the executor processed before); states = distinct (batch, configuration) cases, transitions = handler calls + response items compared", maxLen, histLen)
+		"BatchExecutor.HandleRequest and compared field by field (and by handler call log) with a reference executor; extension x kind part: every item kind x {non-critical, critical} message extension in batches of length <= 2; version x configuration part: request versions {0.0, 1.0, 1.2, 1.4, 3.7, 1.5, 0.4} x executors {default, SetSupportedProtocolVersions with the full, a singleton, a gapped and a duplicated list} x batches of length <= 2 (rejected iff the version is not in the configured set); unrouted-code part: the unrouted items of batches of length <= 2 with operation codes {0x52, 0x112, 0x10012, 0x80000012, 0x54} (outside the standard range, low bits of the routed operation) instead of a standard unrouted operation; context part: batches of length <= 2 handled with a context that is already cancelled / past its deadline / cancelled by the handler of item 0 or 1 (same reference: the state of the caller's context is not among the causes of rejection); history part: every ordered pair of such requests of length <= %d through one executor (the outcome of a request must not depend on the requests the executor processed before); states = distinct (batch, configuration) cases, transitions = handler calls + response items compared", maxLen, histLen)
 	c.Assumptions = []string{"when several rejection causes apply at once the property does not say which reason is reported: only 'single failed item, no handler executed' is required",
 		"'random longer batches' of the quantifier are not covered (sampling is another technique); the exhaustive length bound is stated in the rule"}
 	var cases []c09case
@@ -194,6 +202,27 @@ func runC09(c *vlib.Check) {
 	}
 	vlib.Parallel(len(ccases), 0, func(i int) { c09One(c, ccases[i], 1) })
 	c.Extra["context_cases"] = len(ccases)
+	// unrouted-code part: every batch of length <= 2 holding an unrouted item, with that item's operation code taken from
+	// c09UnroutedCodes (codes outside the standard range sharing their low bits with the routed operation)
+	var ucases []c09case
+	for _, k := range cases {
+		has := false
+		for _, o := range k.items {
+			if kind, _ := c09Split(o); kind == oUnrouted {
+				has = true
+			}
+		}
+		if !has || len(k.items) > 2 || k.badVer || k.countD != 0 {
+			continue
+		}
+		for u := 1; u < len(c09UnroutedCodes); u++ {
+			kk := k
+			kk.unrIdx = u
+			ucases = append(ucases, kk)
+		}
+	}
+	vlib.Parallel(len(ucases), 0, func(i int) { c09One(c, ucases[i], 1) })
+	c.Extra["unrouted_code_cases"] = len(ucases)
 	// history part: every ordered pair of requests from the cases of length <= histLen, both through ONE executor; the
 	// second response (and the first) must satisfy the same reference as on a fresh executor
 	var hcases []c09case
@@ -216,8 +245,8 @@ func runC09(c *vlib.Check) {
 		})
 	})
 	c.Extra["history_pairs"] = pairs
-	c.States = int64(len(cases)+len(vcases)+len(ecases)+len(ccases)) + pairs
-	c.Traces = int64(len(cases)+len(vcases)+len(ecases)+len(ccases)) + 2*pairs
+	c.States = int64(len(cases)+len(vcases)+len(ecases)+len(ccases)+len(ucases)) + pairs
+	c.Traces = int64(len(cases)+len(vcases)+len(ecases)+len(ccases)+len(ucases)) + 2*pairs
 	c.Exhaustive = true
 }
 
@@ -281,6 +310,11 @@ func c09Check(c *vlib.Check, x *c09Exec, k c09case, history string) {
 		if kind == oUnrouted {
 			bi.Operation = kmip.OperationRevoke
 			bi.RequestPayload = &payloads.RevokeRequestPayload{UniqueIdentifier: "x"}
+			if k.unrIdx > 0 {
+				// a code nobody routed, carrying what would be a valid payload for the routed operation
+				bi.Operation = c09UnroutedCodes[k.unrIdx]
+				bi.RequestPayload = &payloads.ActivateRequestPayload{UniqueIdentifier: fmt.Sprintf("%d:%d", i, oOK)}
+			}
 		}
 		if kind == oDiscoverAll || kind == oDiscoverSub {
 			bi.Operation = kmip.OperationDiscoverVersions
